@@ -75,6 +75,7 @@ class C13Oracle(Oracle):
         self.mark = 0
         self.dest_before = None
         self.saves = {}  # path -> (step args signature, bytes) for the overwrite clause
+        self.kept = []  # (step, object snapshot after it) for every step that may legitimately change state
 
     def fail(self, oracle, op, cls, detail):
         if detail.get("step") is None:
@@ -111,6 +112,10 @@ class C13Oracle(Oracle):
         now = self._take(w)
         self.snap = now
         now_objs, now_ids, now_files = now
+        # twin execution (see finish): which steps may legitimately change the state of the heap?
+        # everything that is not a probe, plus probes that turned out to be successful mutators
+        if not out.step.get("probe") or (kind == "mut" and out.ok):
+            self.kept.append((out.step, now_objs))
         if kind == "env":
             return
         brief = None  # filled in lazily by fail()
@@ -213,6 +218,54 @@ class C13Oracle(Oracle):
                 self.fail("no-mutation", name, "returned-existing-object", {"step": brief})
 
 
+def _twin(run, oracle):
+    """Probes are behaviourally invisible: replay ONLY the steps that may
+    legitimately change state (no catalogue probes) in a fresh world, without
+    oracles, and require the same observable heap after each of them.  A failed
+    call or a query that leaves hidden state behind (a flag, a cache, a changed
+    internal representation) which alters the result of a LATER operation shows
+    up here although every single before/after comparison was clean."""
+    from . import ops as opsmod
+    from .world import World, Skip
+    from . import simfs
+
+    n_probes = run.executed - len(oracle.kept)
+    if n_probes <= 0 or not oracle.kept:
+        return
+    from .world import capture_stdout
+
+    main_fs = run.world.fs
+    capture_stdout(True)
+    w = World()
+    try:
+        for i, (step, expect) in enumerate(oracle.kept):
+            try:
+                o = opsmod.resolve(w, step)
+            except Skip:
+                raise Violation(PROP, "twin", step["op"], "step-not-executable-without-probes",
+                                {"index": i, "step": _fmt_step(step)})
+            opsmod.invoke(w, o)
+            got = {}
+            for h, obj in w.heap.items():
+                if isinstance(obj, Textgrid):
+                    got[h] = obs(obj)
+                elif isinstance(obj, TextgridTier):
+                    got[h] = obs_tier(obj)
+                elif isinstance(obj, list):
+                    got[h] = ("list", repr(obj))
+            if got != expect:
+                diff = sorted(h for h in set(got) | set(expect) if got.get(h) != expect.get(h))
+                h = diff[0]
+                raise Violation(PROP, "twin", step["op"], "history-diverges-when-probes-are-left-out", {
+                    "index": i, "step": _fmt_step(step), "handle": h,
+                    "with_probes": expect.get(h), "without_probes": got.get(h),
+                    "probes_left_out": n_probes})
+        run.stats["probe:twin_histories_compared"] += 1
+    finally:
+        capture_stdout(False)
+        simfs.use(main_fs)
+
+
 def _is_obj(r):
     return isinstance(r, (TextgridTier, Textgrid))
 
@@ -243,6 +296,13 @@ def _plain_repr(args, kwargs):
 
 def oracles(cfg):
     return [C13Oracle()]
+
+
+def _finish(self, run):
+    _twin(run, self)
+
+
+C13Oracle.finish = _finish
 
 
 # ----------------------------------------------------------------------------- catalogue
